@@ -172,8 +172,8 @@ func (e *Env) CutAt(at ssa.Instruction, pred func(Fact) bool, assume []Fact) ([]
 	}
 	ef := e.EdgeFacts()
 	cut := map[edge]bool{}
-	if r, ok := at.(*ssa.Return); ok {
-		cut = errorEdges(r)
+	if r, ok := at.(*ssa.Return); ok && isSuccessReturn(r) {
+		cut = errorEdges(r) // only for a return that may succeed: an error exit is reached exactly through those edges
 	}
 	var used []Fact
 	usedEdges := map[string][]edge{}
